@@ -1150,6 +1150,14 @@ func runCase(idx int, r *gen.Rand, work string, rec *crashfs.Recorder, quick boo
 }
 
 func main() {
+	if len(os.Args) > 4 && os.Args[1] == "colchild" {
+		// child process of spawnColCase: colchild <idx> <seed> <seglimit 0|1>
+		idx, _ := strconv.Atoi(os.Args[2])
+		seed, _ := strconv.ParseUint(os.Args[3], 10, 64)
+		work := filepath.Join(os.Getenv("VERIF_WORK"), "c03")
+		runColCase(idx, gen.New(seed), work, os.Args[4] == "1", func(in *ColInstance) { gen.Emit(in) })
+		return
+	}
 	n := 40
 	if len(os.Args) > 1 {
 		n, _ = strconv.Atoi(os.Args[1])
@@ -1166,6 +1174,22 @@ func main() {
 	r := gen.FromEnv(3)
 	for i := 0; i < n; i++ {
 		runCase(i, r.Fork(), work, rec, quick, func(in *Instance) { gen.Emit(in) })
+	}
+	// column-level cases (no crash images): their own stream of the same seed, so the cases above keep their inputs
+	ncol, nseg := 0, 0
+	if len(os.Args) > 2 {
+		ncol, _ = strconv.Atoi(os.Args[2])
+	}
+	if len(os.Args) > 3 {
+		nseg, _ = strconv.Atoi(os.Args[3])
+	}
+	rc := gen.FromEnv(303)
+	for i := 0; i < ncol; i++ {
+		spawnColCase(i, rc.Uint64(), work, false, func(in *ColInstance) { gen.Emit(in) })
+	}
+	rs := gen.FromEnv(3003)
+	for i := 0; i < nseg; i++ {
+		spawnColCase(100000+i, rs.Uint64(), work, true, func(in *ColInstance) { gen.Emit(in) })
 	}
 	fmt.Fprintln(os.Stderr, "c03 done")
 }
